@@ -26,7 +26,7 @@ PERR_CLASS = {
 }
 
 
-async def _read_all(stream: bytes, cuts, lazy, max_calls):
+async def _read_all(stream: bytes, cuts, lazy, max_calls, stats=None):
     sr = asyncio.StreamReader()
     fr = FrameReader(sr)
     chunks = []
@@ -60,6 +60,9 @@ async def _read_all(stream: bytes, cuts, lazy, max_calls):
         while not t.done():
             await asyncio.sleep(0)
             if not t.done() and sr._waiter is not None:
+                if stats is not None:
+                    # bytes sitting in the buffer while the reader still waits for more
+                    stats["max_blocked_buffer"] = max(stats.get("max_blocked_buffer", 0), len(sr._buffer))
                 feed_next()
             guard += 1
             if guard > 100000:
@@ -91,10 +94,10 @@ async def _read_all(stream: bytes, cuts, lazy, max_calls):
     return out
 
 
-def read_all(stream: bytes, cuts=(), lazy=False, max_calls=None):
+def read_all(stream: bytes, cuts=(), lazy=False, max_calls=None, stats=None):
     if max_calls is None:
         max_calls = len(stream) + 2
-    return vloop.run(_read_all(bytes(stream), cuts, lazy, max_calls))
+    return vloop.run(_read_all(bytes(stream), cuts, lazy, max_calls, stats))
 
 
 def parse_model(line):
